@@ -24,6 +24,7 @@ import (
 	"strconv"
 	"strings"
 	"sync"
+	"time"
 
 	_ "github.com/caddyserver/caddy/v2/modules/caddyevents"
 	_ "github.com/caddyserver/caddy/v2/modules/caddyhttp"
@@ -48,7 +49,16 @@ func New() core.Prop { return &prop{} }
 func (*prop) ID() string { return "C02" }
 
 func (p *prop) setup() {
-	p.once.Do(func() { p.env, p.envErr = newEnv() })
+	p.once.Do(func() {
+		// reserving ports can fail for reasons that have nothing to do with caddy (a loaded
+		// machine, many harness processes): try again before giving up
+		for try := 0; try < 5; try++ {
+			if p.env, p.envErr = newEnv(); p.envErr == nil {
+				return
+			}
+			time.Sleep(time.Second)
+		}
+	})
 }
 
 func (p *prop) Finish(*core.Session) {
